@@ -62,10 +62,13 @@ Definition ostype_of (d : dval) : Z :=
 Definition write_key (t : terms) (k : key) : W :=
   w_fmt (pack_u 4 (if key_in k t then 0 else len k)) +++ w_bytes k.
 (* read_length_and_key: returns the key and the (possibly grown) term set *)
+(* since /repo 708c13e a key cut short by the end of the data is an IOError (the reader before it: Psd/Legacy.v read_key_v0) *)
 Definition read_key (t : terms) (s : stream) : res (key * terms * stream) :=
   do (n, s1) <- read_u 4 s;
-  let d := read_upto (if n =? 0 then 4 else n) s1 in
+  let want := if n =? 0 then 4 else n in
+  let d := read_upto want s1 in
   let k := fst d in
+  if negb (len k =? want) then Err IOErr else
   Ok (k, if (n =? 0) && negb (key_in k t) then k :: t else t, snd d).
 
 Fixpoint write_dval (t : terms) (d : dval) : W :=
